@@ -43,7 +43,7 @@ class C10Machine(Machine):
         "transitive_curie_remap_applied", "uri_remap_applied", "rewire_applied",
         "chain_merged_later_into_earlier", "discover_with_known_uris", "lineage_depth_ge_3",
         "sub_nonempty", "mutation_right_after_derivation", "chain_same_converter_twice",
-        "curie_remap_applied", "large_root", "followup_add_with_pattern",
+        "curie_remap_applied", "large_root", "followup_add_with_pattern", "same_record_followed_through_lineage",
     ]
 
     @classmethod
@@ -85,6 +85,7 @@ class C10Machine(Machine):
             config["curie_pool"], config["uri_pool"], config["id_pool"], config["delimiters"], max_ids=2, compact=True
         )
         self.last_was_derivation = None
+        self.last_mutation = None
         self.nontrivial_hit = False
         self.unstated = 0
 
@@ -96,6 +97,24 @@ class C10Machine(Machine):
         if self.last_was_derivation is not None and rng.random() < cfg["p_mutate_after_derive"]:
             h = self.last_was_derivation
             return self._gen_mutate(rng, h)
+        if self.last_mutation is not None and rng.random() < 0.35:
+            # follow one record through the lineage: the same record is now merged into on a converter
+            # that was derived (directly or not) from the one just modified
+            h0, token = self.last_mutation
+            desc = [i for i in sorted(self.entries) if h0 in self._ancestors(i)]
+            if desc:
+                h2 = rng.choice(desc)
+                op = self._gen_mutate(rng, h2)
+                recs = self._recs(h2)
+                if any(token in [r["prefix"], *r["prefix_synonyms"]] for r in recs):
+                    op["record"]["prefix"] = token
+                    op["record"]["prefix_synonyms"] = [x for x in op["record"]["prefix_synonyms"] if x != token]
+                    if op["record"]["uri_prefix"] in {u for r in recs for u in [r["uri_prefix"], *r["uri_prefix_synonyms"]]}:
+                        op["record"]["uri_prefix"] = "m:" + str(rng.randint(5, 9)) + "/"
+                    op["merge"] = True
+                    op["case_sensitive"] = True
+                    op["followed"] = True
+                return op
         choices = []
         if len(self.entries) < self.config.get("max_converters", MAX_CONVERTERS):
             choices += [("new", cfg["w_new"])]
@@ -527,6 +546,9 @@ class C10Machine(Machine):
         except Exception as ex:  # noqa: BLE001
             err = ex
         self.event("mutate_" + op["kind"] + ("_rejected" if err else "_accepted"))
+        self.last_mutation = (h, rd["prefix"]) if (err is None and op["merge"] and hit_own) else None
+        if op.get("followed") and err is None:
+            self.probe("same_record_followed_through_lineage")
         if err is not None:
             self.fault("mutation_rejected")
         site = SITE.get(e.origin, e.origin) + "->" + op["kind"]
